@@ -23,12 +23,21 @@ from ..runner import Stream
 PROPERTY = "C17"
 LEVEL = "proof"
 TRUSTED = [
-    "asyncio scheduling and the thread pool: observed, not modelled (the theorems hold for every schedule of the mechanism model)",
+    "asyncio scheduling and the thread pool: observed, not modelled (the theorems hold for every schedule of the mechanism models)",
     "the run-function's own log of (start, resources) / (end) events is the observation; its order is the order of the log appends",
+    "step-wise streams: 60 iterations of the event loop after each operation are taken to be enough for asyncio to do everything it can "
+    "(the model state compared is the quiescent one, C17_settle_quiescent); on the thread backend WHICH queued job the pool starts next "
+    "is read off the log and given to the model as an input (DStart), only its admissibility (a free pool thread) is the model's",
+    "step-wise streams: a task whose run-function raised is taken out of Evaluator._tasks_running by the driver (the base class keeps "
+    "it there for ever and re-raises at every gather/close - not the queue's concern)",
 ]
-ASSUMPTIONS = ["resources are distinct tokens", "asyncio semaphores wake their waiters in FIFO order (step-wise streams, exact prediction)"]
-RULE = ("queue 1..6 x pop {1,2} x workers 1..3 x 1..8 jobs in 1..3 waves x random completion orders (serial: forced by a conductor; "
-        "thread: random sleeps); non-trivial = more jobs than free resource groups or than workers (some job has to wait)")
+ASSUMPTIONS = ["resources are distinct tokens", "asyncio semaphores wake their waiters in FIFO order (step-wise streams, exact prediction)",
+               "run-functions end promptly when cancelled (serial backend; the order in which close() returns resources depends on it)"]
+RULE = ("serial_conducted / thread_random: queue 1..6 x pop {1,2} x workers 1..3 x 1..8 jobs in 1..3 waves x random completion orders "
+        "(serial: forced by a conductor; thread: random sleeps); non-trivial = more jobs than free resource groups or than workers. "
+        "serial_steps / thread_steps: queue 1..6 x pop 1..3 (also not dividing the queue) x workers 1..3 x 2..9 operations among submit k / "
+        "return / raise / close(), every run-function released by the driver; all pops from -1 to len(queue)+2 for the constructor; "
+        "non-trivial = contention, a failure or a close()")
 CLAUSE = {1: "wrong_resource_count", 2: "resource_not_free", 3: "start_end_order", 4: "metadata", 5: "job_never_ran", 6: "resource_lost"}
 F_REPLAY = 1701
 F_XREPLAY = 1702
@@ -208,6 +217,10 @@ class Stepper:
             self.ev = queued(ThreadPoolEvaluator)(self.run_sync, num_workers=case["workers"], queue=self.q0, queue_pop_per_task=case["pop"])
         else:
             self.ev = queued(SerialEvaluator)(self.run_async, num_workers=case["workers"], queue=self.q0, queue_pop_per_task=case["pop"])
+        if case.get("timeout"):
+            # an evaluator-wide time budget that is over at once: every job is marked CANCELLED when it reaches the deadline,
+            # but its run-function is awaited all the same - the resources must stay with the job until it really ends
+            self.ev.timeout = 0.001
 
     # ---- run-functions -------------------------------------------------------------------------------------------
     async def run_async(self, job, dequed=None):
@@ -453,7 +466,7 @@ def steps_check(case):
     res["nontrivial"] = njobs > min(c["queue"] // c["pop"], c["workers"]) or "close" in kinds or "fail" in kinds
     res["desc"] = ["queue=%d" % c["queue"], "pop=%d" % c["pop"], "workers=%d" % c["workers"], "jobs=%d" % min(njobs, 9),
                    "divides=%s" % (c["queue"] % c["pop"] == 0)] + ["op=" + k for k in kinds] + \
-                  ["waves=%d" % min(3, sum(1 for o in c["ops"] if o[0] == "submit"))] + (["pool_start"] if any(o[0] == OP_START for o in ops) else [])
+                  ["waves=%d" % min(3, sum(1 for o in c["ops"] if o[0] == "submit"))] + (["timeout_set"] if c.get("timeout") else []) + (["pool_start"] if any(o[0] == OP_START for o in ops) else [])
     sig = dict(sig, after_close=after_close)
     if isinstance(bad, str):
         return dict(res, ok=False, clause=bad, sig=dict(sig, clause=bad), detail=dict(ops=ops, log=log, snapshots=[sn for _i, sn in snaps]))
@@ -484,6 +497,7 @@ def steps_gen(count, backend):
             # smallest instances of each phenomenon
             yield dict(backend=backend, queue=5, pop=2, workers=2, ops=[["submit", 4], ["fail", 0], ["close", 0], ["submit", 2], ["finish", 0]])
             yield dict(backend=backend, queue=2, pop=1, workers=1, ops=[["submit", 1], ["submit", 1]])  # F21: two jobs run with one worker
+            yield dict(backend=backend, queue=2, pop=1, workers=1, timeout=True, ops=[["submit", 3], ["finish", 0], ["fail", 0]])  # deadline passed while holding
             yield dict(backend=backend, queue=6, pop=2, workers=1, ops=[["submit", 3], ["close", 0], ["submit", 3]])  # order in which close() returns
         else:
             yield dict(backend=backend, queue=1, pop=1, workers=2, ops=[["submit", 1], ["close", 0], ["submit", 1]])  # zombie + new job (F52)
@@ -510,11 +524,16 @@ def steps_gen(count, backend):
                     ops.append(["close", 0])
                 else:
                     ops.append(["finish", rng.randint(0, 5)])
-            yield dict(backend=backend, queue=queue, pop=pop, workers=rng.randint(1, 3), ops=ops)
+            c = dict(backend=backend, queue=queue, pop=pop, workers=rng.randint(1, 3), ops=ops)
+            if ["close", 0] not in ops and rng.random() < 0.3:
+                c["timeout"] = True  # (with close() the shielded run-function of the serial backend is abandoned, never ends)
+            yield c
     return g
 
 
 def steps_shrink(case):
+    if case.get("timeout"):
+        yield {k: v for k, v in case.items() if k != "timeout"}
     ops = case["ops"]
     for i in range(len(ops)):
         yield dict(case, ops=ops[:i] + ops[i + 1:])
